@@ -1,6 +1,6 @@
 /* hxt: N threads race sodium_init() behind a barrier, then every thread runs the same op lines
    (each thread starting at a different offset so that different API families overlap in time).
-   Usage: hxt <nthreads> <seed>   (op lines on stdin)
+   Usage: hxt <nthreads> <seed> [sys|internal]   (op lines on stdin; 3rd arg selects the random generator, set before any thread starts)
    Output: line 1: "init zero=<#threads that got 0> one=<#1> other=<#anything else> early=<#threads that saw
                     an uninitialised library after sodium_init returned>"
            then one line per op: the common output, or "THREAD-DIFF t<i>=<..> t<j>=<..>" when two threads disagree. */
@@ -45,9 +45,10 @@ static void *worker(void *arg_) {
 int main(int argc, char **argv) {
     char *line = NULL; size_t cap = 0, lcap = 0, k; ssize_t n; int i, zero = 0, one = 0, other = 0, early = 0;
     pthread_t *th; thr_t *ts;
-    if (argc != 3) { fprintf(stderr, "usage: hxt nthreads seed\n"); return 2; }
+    if (argc != 3 && argc != 4) { fprintf(stderr, "usage: hxt nthreads seed\n"); return 2; }
     nthreads = atoi(argv[1]); seed = (unsigned) strtoul(argv[2], NULL, 10);
     if (nthreads < 1 || nthreads > 64) return 2;
+    if (argc == 4 && strcmp(argv[3], "internal") == 0) randombytes_set_implementation(&randombytes_internal_implementation);
     while ((n = getline(&line, &cap, stdin)) > 0) {
         if (nlines + 1 >= lcap) { lcap = lcap ? lcap * 2 : 256; lines = (char **) realloc(lines, lcap * sizeof *lines); }
         lines[nlines++] = strdup(line);
